@@ -137,7 +137,7 @@ struct expected {
     }
 
     template <typename F>
-    [[nodiscard]] constexpr auto and_then(F&& f) && requires(is_constructible_v<E, decltype(error())>)
+    [[nodiscard]] constexpr auto and_then(F&& f) const& requires(is_constructible_v<E, decltype(error())>)
     {
         if (has_value()) { return etl::invoke(etl::forward<F>(f), **this); }
         using U = remove_cvref_t<invoke_result_t<F, decltype(**this)>>;
@@ -145,7 +145,7 @@ struct expected {
     }
 
     template <typename F>
-    [[nodiscard]] constexpr auto and_then(F&& f) const&
+    [[nodiscard]] constexpr auto and_then(F&& f) &&
         requires(is_constructible_v<E, decltype(etl::move(error()))>)
     {
         if (has_value()) {
